@@ -23,9 +23,10 @@ HARNESS = [vf.kit(PKG, "c21"),
 # generator configs: (cfg, simulate num quick/thorough, behaviours replayed quick/thorough)
 GENS = [("GenCore", 60, 400, 36, 700),
         ("GenInputs", 40, 200, 16, 200),
-        ("GenRace", 150, 900, 8, 80),
+        ("GenRace", 200, 1200, 8, 80),
         ("GenUnrev", 100, 600, 8, 80),
-        ("GenTick", 200, 1200, 6, 48)]
+        ("GenHits", 600, 3000, 8, 80),
+        ("GenTick", 600, 3000, 6, 48)]
 
 
 def _hooks_present():
@@ -240,8 +241,8 @@ def run():
             raise vf.NoVerdict("F self-test failed: known-bad / out-of-domain records not recognised: %s %s %s" % (n2, bad2, notwf2))
         chk.cov["binding_selftest"] = ("R: perturbed expected TokenCache after Add was reported as a mismatch; "
                                        "F: known-bad mutation record flagged, out-of-domain record excluded")
-        chk.cov["rule"] = ("behaviours = TLC simulation of TokenAuth_Gen under 5 generator configs (general, input classes, and focused on the "
-                           "revocation race / un-revocation / expiry), sampled by seed; every step forced on the real code via gates; "
+        chk.cov["rule"] = ("behaviours = TLC simulation of TokenAuth_Gen under 6 generator configs (general, input classes, and focused on the "
+                           "revocation race / un-revocation / repeated cache hits / expiry), sampled by seed; every step forced on the real code via gates; "
                            "non-trivial+distinct = distinct (spec state before, step) pairs executed; evaluations = steps compared + mutation records judged")
         chk.cov["exhaustive"] = False
     return chk.finish()
